@@ -18,6 +18,7 @@ sys.path.insert(0, VERIF)
 import build as simbuild
 
 DATA = os.path.join(VERIF, "data")
+OUT = os.environ.get("VERIF_OUT", VERIF)  # evidence/ and replays/ go here (overridden only by the self-test)
 CLAIMED = ["C10", "C11", "C12", "C13", "C14", "C15", "C16", "C17", "C19"]
 WORKERS = int(os.environ.get("VERIF_JOBS", "16"))
 
@@ -305,7 +306,7 @@ def main():
     for c in sorted(my_crashes, key=lambda c: (c.get("kind", ""), c.get("op", ""), c["variant"], str(c.get("idx")))):
         crash_classes.setdefault((c.get("kind", ""), c.get("owner", ""), c.get("op", "")), []).append(c)
 
-    os.makedirs(os.path.join(VERIF, "replays"), exist_ok=True)
+    os.makedirs(os.path.join(OUT, "replays"), exist_ok=True)
     reported, known_hits, harness_fault = [], [], False
 
     def is_known(oracle, sig):
@@ -322,7 +323,7 @@ def main():
             continue
         v = vs[0]
         exe = exes[v["variant"]]
-        base = os.path.join(VERIF, "replays", "%s-%s" % (prop, v["seed"]))
+        base = os.path.join(OUT, "replays", "%s-%s" % (prop, v["seed"]))
         planf, minf = base + ".full.plan", base + ".plan"
         sim_emit_plan(exe, v["batchseed"], v["profile"], v["idx"], planf)
         if len(reported) >= MAXREP:  # many distinct classes: report the un-minimised plan of the remaining ones
@@ -355,7 +356,7 @@ def main():
             continue
         c = cs[0]
         exe = exes[c["variant"]]
-        base = os.path.join(VERIF, "replays", "%s-%s" % (prop, c["seed"]))
+        base = os.path.join(OUT, "replays", "%s-%s" % (prop, c["seed"]))
         planf, minf = base + ".full.plan", base + ".plan"
         if str(c.get("idx")) == "?":
             harness_fault = True
@@ -432,8 +433,8 @@ def main():
         "wall_s": round(wall, 2),
         "violations": len(reported),
     }
-    os.makedirs(os.path.join(VERIF, "evidence"), exist_ok=True)
-    json.dump(ev, open(os.path.join(VERIF, "evidence", prop + ".json"), "w"), indent=1, sort_keys=True)
+    os.makedirs(os.path.join(OUT, "evidence"), exist_ok=True)
+    json.dump(ev, open(os.path.join(OUT, "evidence", prop + ".json"), "w"), indent=1, sort_keys=True)
 
     # ---------------- verdict
     log("run_check: %d runs, %d steps, %d oracle evaluations for %s, %d states, %.1fs build + %.1fs explore" % (agg.runs, agg.steps, agg.orc.get(prop, 0), prop, len(agg.states), tbuild, trun))
